@@ -12,8 +12,8 @@ PKGS = [{"dir": WH, "name": "wh"}, {"dir": WB, "name": "main", "rt": False}, {"d
 ARGMAX = [("mem/", 96), ("align/", 96), ("ctl/loop", 6), ("ctl/grow", 3), ("heap/", 96), ("prog/runtime.", 96),
           ("prog/runtime.Block.", 2), ("prog/runtime.Block.HeapAlloc", 4), ("prog/t_loop", 6),
           ("decl/data", 300), ("decl/misc", 8), ("named/", 8), ("index/", 8)]
-NAMES = ["ops", "mem", "align", "ctl", "decl", "named", "index", "heap", "prog"]
-HAND = {"ctl": "c04_ctl.wat", "decl": "c05_decl.wat", "named": "c06_named.wat", "index": "c06_index.wat"}
+NAMES = ["ops", "mem", "align", "ctl", "decl", "named", "index", "index0", "heap", "prog"]
+HAND = {"ctl": "c04_ctl.wat", "decl": "c05_decl.wat", "named": "c06_named.wat", "index": "c06_index.wat", "index0": "c06_index0.wat"}
 
 
 def corpus(scratch, wdir, ov):
@@ -169,7 +169,7 @@ def run_equiv(prop, tier, seed, transform_cmd, what, assumptions):
             reach, allf = reachable_functions(fmt)
             _, kept = reachable_functions(t1)
             unnamed = "\t(func (" in fmt or "\t(func\n" in fmt
-            if not unnamed and n != "index":
+            if not unnamed and not n.startswith("index"):
                 if kept != reach:
                     side_violation(c, "strip/%s/watstrip/removes-exactly-the-unreachable-functions" % n,
                                    {"module": n, "step": "compare the kept function set with independent reachability",
